@@ -23,6 +23,14 @@ CLAIMED = {
             "exhaustive small-scope enumeration of numeral tokens through parser and string-taking setters under several ambient errno values against a three-valued oracle, plus boundary values",
             "Exhaustive only up to the stated token length; float expectations from Python's correctly rounded float().",
             "exhaustive bounded enumeration + boundary values + random longer tokens (Hypothesis), three-valued reference oracle"),
+    "C01": ("exploration", "5.C01",
+            "exhaustive token sequences (every parser state x token) on fixed schemas plus random schemas x flags x mutated grammar-derived text sequences, compared with an independent language/store model after every accepted text",
+            "The model is written from the documentation and the property text; exhaustive only up to the stated sequence length.",
+            "model-based property testing (Hypothesis schema+text generators, token mutation) + exhaustive bounded enumeration against a reference interpreter"),
+    "C06": ("exploration", "5.C06",
+            "multi-line texts with comments, multi-line strings, continuations, nested sections and includes, one injected error per token position; language model gives the offending token; diagnostics (count, file, line) compared",
+            "Message texts are not compared; the model's notion of the offending token is the one of DESIGN 5.C06.",
+            "property-based testing (Hypothesis) with systematic per-position error injection against a reference lexer+parser model"),
 }
 PENDING = {}
 props = [json.loads(l) for l in open(os.path.join(V, "properties.jsonl"))]
